@@ -96,6 +96,11 @@ def run(
     if m:
         states = int(m.group(1).replace(",", ""))
         distinct = int(m.group(2).replace(",", ""))
+    else:
+        # simulation mode reports only the number of states it generated
+        sm = re.search(r"The number of states generated: (\d[\d,]*)", out)
+        if sm:
+            states = distinct = int(sm.group(1).replace(",", ""))
     cov = {}
     if coverage:
         for cm in _RE_COV.finditer(out):
